@@ -13,7 +13,7 @@ HARNESSES = [{'id': 'c07_binary',
                        'unwind': 22,
                        'unwindset': {'_ZStlsISt11char_traitsIcEERSt13basic_ostreamIcT_ES5_PKc.0': 120,
                                      '_ZSt16__ostream_insertIcSt11char_traitsIcEERSt13basic_ostreamIT_T0_ES6_PKS3_l.0': 120},
-                       'cap': 600}}},
+                       'cap': 300}}},
  {'id': 'c07_muldiv',
   'property': 'C07',
   'src': 'c07_evaluate.cxx',
@@ -22,7 +22,7 @@ HARNESSES = [{'id': 'c07_binary',
   'desc': 'CPPExpression::evaluate on * / % incl. division by zero and INT_MIN / -1',
   'domain': 'leaves in [-LEAFMAX, LEAFMAX] plus INT_MIN, INT_MAX',
   'oracle': 'C++ semantics; /0 and %0 must give RT_error; no trap (CBMC division checks on the real code)',
-  'bounds': {'quick': {'defs': {'OPSET': 1, 'LEAFMAX': 64}, 'unwind': 22, 'cap': 600},
+  'bounds': {'quick': {'defs': {'OPSET': 1, 'LEAFMAX': 64}, 'unwind': 22, 'cap': 300},
              'thorough': {'defs': {'OPSET': 1, 'LEAFMAX': 4096}, 'unwind': 22, 'cap': 3000}}},
  {'id': 'c07_unary',
   'property': 'C07',
@@ -32,7 +32,7 @@ HARNESSES = [{'id': 'c07_binary',
   'desc': 'CPPExpression::evaluate on unary operators',
   'domain': 'leaf over all of int, 4 unary operators',
   'oracle': 'C++ semantics',
-  'bounds': {'quick': {'unwind': 22, 'cap': 600}}}]
+  'bounds': {'quick': {'unwind': 22, 'cap': 300}}}]
 
 HARNESSES += [
     dict(id='c07_enum_increment', property='C07', src='c07_enum.cxx', entry='harness_c07_enum_increment',
@@ -53,3 +53,35 @@ PROPERTY_INFO = {'C07': {'level': 'model_checking',
          'assumptions': []}}
 
 NOT_APPLICABLE = {}
+
+# ---- literal decoding (a_c09c17) ------------------------------------------------------------------------------------
+_DISJUNCT = '_ZNKSt7__cxx1112basic_stringIcSt11char_traitsIcESaIcEE11_M_disjunctEPKc'
+
+
+def _lit(name, setno, litmax, nparts, part, desc):
+    us = {'ll_strlen.0': 12, 'll_memcmp.0': 12, 'll_memcpy.0': 20, 'll_memmove.0': 12, 'll_memchr.0': 12, 'vs_istream_bytes.0': 20,
+          '_ZN15CPPPreprocessor9InputFile3getEv.0': 2, '_ZN15CPPPreprocessor9InputFile4peekEv.0': 2}
+    b = {'defs': {'SET': setno, 'LITMAX': litmax, 'NPARTS': nparts, 'PART': part}, 'unwind': 700, 'unwindset': us, 'cap': 300}
+    return dict(id='c07_lit_%s_%d' % (name, part), property='C07', src='c07_literals.cxx', entry='harness_c07_literals',
+                tus=['src/cppparser/cppPreprocessor.cxx', 'src/cppparser/cppToken.cxx', 'src/cppparser/cppFile.cxx',
+                     'src/cppparser/cppAttributeList.cxx', 'src/dtoolutil/filename.cxx'],
+                skip_ctors=['cppPreprocessor.cxx'], tuflags=['-fno-inline'], cut=[_DISJUNCT],
+                models=['strdisjunct.c', 'strtol.c', 'list.c'],
+                # --pointer-check makes symbolic execution quadratic in the number of dead locals; off for this long
+                # concrete enumeration (bounds/overflow/division checks and the base.c crash assertions stay on)
+                cbmc_flags=['--no-pointer-check', '--max-field-sensitivity-array-size', '128'], object_bits=16,
+                desc='literal decoding through the istream byte model: ' + desc,
+                domain='concrete loop over literal spellings (no symbolic input: symbolic bytes make the lexer\'s strings '
+                       'symbolic-length and symbolic execution does not terminate): ' + desc + '; residue class %d of %d' % (part, nparts),
+                oracle='token kind INTEGER / CHAR_TOK; value equals the reference value of the spelling; exactly the literal is consumed',
+                bounds=dict(quick=b, thorough=b))
+
+
+HARNESSES += (
+    [_lit('dec', 0, 2, 2, p, 'get_number on every decimal literal of 1..2 digits over {0,1,9}') for p in range(2)] +
+    [_lit('oct', 1, 3, 2, p, 'get_number on every octal literal 0d, 0dd over {0,1,7}') for p in range(2)] +
+    [_lit('hex', 2, 4, 4, p, 'get_number on every hex literal 0x/0X + 1..2 digits over {0,9,a,F}') for p in range(4)] +
+    [_lit('bin', 3, 4, 1, p, 'get_number on every binary literal 0b/0B + 1..2 digits') for p in range(1)] +
+    [_lit('chr', 4, 4, 4, p, 'get_quoted_char / scan_escape_sequence / hex_val on 24 character literals: plain, simple escapes, '
+          'octal \\0 \\7 \\17 \\101 \\377, hex \\x41 \\x7f \\xA \\x0, \\e, \\18') for p in range(4)]
+)
